@@ -166,7 +166,7 @@ _FL_BOUNDS = reg("Voi.Props.FL.Bounds", "Voi.FIR.Sound", "Voi.Props.FL.Link", "V
 PROPS["C14"]["theorems"] = {**PROPS["C14"]["theorems"], **reg("Voi.Props.FL.Elligator", "Voi.Props.FL.Sqrt")}
 PROPS["C14"]["gens"] = sorted(set(PROPS["C14"].get("gens") or []) | {"go2ir", "flevel"})
 PROPS["C14"]["streams"] = PROPS["C14"]["streams"] + [("T2", 3000, {"configs": ["purego", "force32bit"]})]
-for _k, _t in {"C03": {**_FL_CURVE, **_FL_BOUNDS}, "C04": {**_FL_FIELD, **_FL_BOUNDS}, "C06": _FL_BOUNDS, "C07": {**_FL_FIELD, **_FL_BOUNDS, **reg("Voi.Props.FL.Montgomery")},
+for _k, _t in {"C03": {**_FL_CURVE, **_FL_BOUNDS}, "C04": {**_FL_FIELD, **_FL_BOUNDS}, "C06": {**_FL_BOUNDS, **reg("Voi.Props.FL.Backends")}, "C07": {**_FL_FIELD, **_FL_BOUNDS, **reg("Voi.Props.FL.Montgomery")},
                "C10": {**_FL_CURVE, **reg("Voi.Props.FL.Sqrt")}, "C11": {**_FL_CURVE, **reg("Voi.Props.FL.Sqrt", "Voi.Props.FL.Ristretto"), **_FL_BOUNDS}}.items():
     PROPS[_k]["theorems"] = {**PROPS[_k]["theorems"], **_t}
     PROPS[_k]["gens"] = sorted(set(PROPS[_k].get("gens") or []) | {"go2ir", "flevel"})
